@@ -66,14 +66,14 @@ def run(ctx):
         for copy, lf, label, mapping in (("ss", None, "scalar", {}), ("ll", None, "list-list", {("elem", "L"): L, ("elem", "R"): R}),
                                          ("ls", True, "list-scalar", {("elem", "E"): L, ("role", "O"): R}), ("ls", False, "scalar-list", {("elem", "E"): R, ("role", "O"): L})):
             vals, a = copy_vals(copy, op, lf, mapping)
-            ctx.inst("C12.R1", "%s#%s" % (op, label), vals == [S.resort(oracle[op])], "%s computes %s; canonical set %s" % (label, [S.show(v) for v in vals], CANON[op]), H.loc(a["body"]) if a else None)
+            ctx.inst("C12.R1", "%s#%s" % (op, label), S.verdict(tuple(vals), (S.resort(oracle[op]),)), "%s computes %s; canonical set %s" % (label, [S.show(v) for v in vals], CANON[op]), H.loc(a["body"]) if a else None)
         dop = "Dot" + op
         a = C.op_arm(C.dot_match, dop)
         env = S.Env(roles={C.lhs: L, C.rhs: R})
         lv = []
         B.leaves(a["body"], env, lv, dop, C.opname)
         rets = [S.resort(x[1]) for x in lv if x[0] == "return"]
-        ctx.inst("C12.R1", "%s#dot" % dop, rets == [S.resort(oracle[op])], "dot arm returns %s; canonical set %s" % ([S.show(r) for r in rets], CANON[op]), H.loc(a["body"]))
+        ctx.inst("C12.R1", "%s#dot" % dop, S.verdict(tuple(rets), (S.resort(oracle[op]),)), "dot arm returns %s; canonical set %s" % ([S.show(r) for r in rets], CANON[op]), H.loc(a["body"]))
     # unchecked built-ins
     bic = core.hir_fn("blots_core::functions::BuiltInFunction::call")
     m = H.matches_on(bic["body"], "functions::BuiltInFunction")[0]
@@ -151,13 +151,13 @@ def run(ctx):
                                      ("ls", True, "list-scalar", {("elem", "E"): L, ("role", "O"): R}), ("ls", False, "scalar-list", {("elem", "E"): R, ("role", "O"): L})):
         v1, a1 = copy_vals(copy, "Equal", lf, mapping)
         v2, a2 = copy_vals(copy, "NotEqual", lf, mapping)
-        ctx.inst("C12.R2", "Equal/NotEqual#%s" % label, v1 == [S.resort(eq)] and v2 == [S.resort(ne)], "== computes %s, != computes %s" % ([S.show(v) for v in v1], [S.show(v) for v in v2]), H.loc(a2["body"]) if a2 else None)
+        ctx.inst("C12.R2", "Equal/NotEqual#%s" % label, S.both(S.verdict(tuple(v1), (S.resort(eq),)), S.verdict(tuple(v2), (S.resort(ne),))), "== computes %s, != computes %s" % ([S.show(v) for v in v1], [S.show(v) for v in v2]), H.loc(a2["body"]) if a2 else None)
     for dop, want in (("DotEqual", eq), ("DotNotEqual", ne)):
         a = C.op_arm(C.dot_match, dop)
         lv = []
         B.leaves(a["body"], S.Env(roles={C.lhs: L, C.rhs: R}), lv, dop, C.opname)
         rets = [S.resort(x[1]) for x in lv if x[0] == "return"]
-        ctx.inst("C12.R2", "%s#dot" % dop, rets == [S.resort(want)], "returns %s" % [S.show(r) for r in rets], H.loc(a["body"]))
+        ctx.inst("C12.R2", "%s#dot" % dop, S.verdict(tuple(rets), (S.resort(want),)), "returns %s" % [S.show(r) for r in rets], H.loc(a["body"]))
 
     # ---------------- R3 equals / compare agree pair by pair
     ctx.rule("C12.R3", "Value::equals and Value::compare: per (variant, variant) pair the primitives come from one std type (== with partial_cmp on f64 / bool / str), lists and records are compared structurally with an exact length test, different kinds are never equal and never ordered", floor=12)
@@ -175,15 +175,15 @@ def run(ctx):
     for kind in ("Number", "Bool"):
         key = ("tup", (kind,), (kind,))
         e, c = single_value(EQ, key), single_value(CMP, key)
-        ctx.inst("C12.R3", "equals#%s" % kind, e == ("bin", "Eq", L, R), "equals: %s" % S.show(e) if e else "arm missing / not a single value", H.loc(EQ[key][1]["body"]) if key in EQ else None)
-        ctx.inst("C12.R3", "compare#%s" % kind, c == ("call", "partial_cmp", L, R), "compare: %s" % S.show(c) if c else "arm missing / not a single value", H.loc(CMP[key][1]["body"]) if key in CMP else None)
+        ctx.inst("C12.R3", "equals#%s" % kind, S.verdict_opt(e, ("bin", "Eq", L, R)), "equals: %s" % S.show(e) if e else "arm missing / not a single value", H.loc(EQ[key][1]["body"]) if key in EQ else None)
+        ctx.inst("C12.R3", "compare#%s" % kind, S.verdict_opt(c, ("call", "partial_cmp", L, R)), "compare: %s" % S.show(c) if c else "arm missing / not a single value", H.loc(CMP[key][1]["body"]) if key in CMP else None)
     key = ("tup", ("String",), ("String",))
     e, c = single_value(EQ, key), single_value(CMP, key)
     sl, sr = reified("as_string", L), reified("as_string", R)
-    ctx.inst("C12.R3", "equals#String", e == ("bin", "Eq", sl, sr), "equals: %s" % (S.show(e) if e else None), H.loc(EQ[key][1]["body"]) if key in EQ else None)
-    ctx.inst("C12.R3", "compare#String", c == ("call", "partial_cmp", sl, sr), "compare: %s" % (S.show(c) if c else None), H.loc(CMP[key][1]["body"]) if key in CMP else None)
+    ctx.inst("C12.R3", "equals#String", S.verdict_opt(e, ("bin", "Eq", sl, sr)), "equals: %s" % (S.show(e) if e else None), H.loc(EQ[key][1]["body"]) if key in EQ else None)
+    ctx.inst("C12.R3", "compare#String", S.verdict_opt(c, ("call", "partial_cmp", sl, sr)), "compare: %s" % (S.show(c) if c else None), H.loc(CMP[key][1]["body"]) if key in CMP else None)
     e = single_value(EQ, ("tup", ("Null",), ("Null",)))
-    ctx.inst("C12.R3", "equals#Null", e == ("lit", "true"), "equals(null, null): %s" % (S.show(e) if e else None), None)
+    ctx.inst("C12.R3", "equals#Null", S.verdict_opt(e, ("lit", "true")), "equals(null, null): %s" % (S.show(e) if e else None), None)
     # lists
     key = ("tup", ("List",), ("List",))
     ll, lr = reified("as_list", L), reified("as_list", R)
@@ -193,7 +193,7 @@ def run(ctx):
                 ("loop-over", ("call", "zip", ll, lr)),
                 ("when", ("un", "Not", ("try", ("call", "equals", ("loopvar",), ("loopvar",)))), ("return", ("lit", "false"))),
                 ("value", ("lit", "true"))]
-        ctx.inst("C12.R3", "equals#List", lv == want, "equals on lists: length test `!=`, zip of both lists, first unequal element -> false, else true: %s" % (lv == want), H.loc(EQ[key][1]["body"]))
+        ctx.inst("C12.R3", "equals#List", S.verdict(tuple(lv), tuple(want)), "equals on lists: length test `!=`, zip of both lists, first unequal element -> false, else true: %s" % (lv == want), H.loc(EQ[key][1]["body"]))
     else:
         ctx.inst("C12.R3", "equals#List", False, "no (List, List) arm in equals", None)
     key_r = ("tup", ("Record",), ("Record",))
@@ -221,8 +221,8 @@ def run(ctx):
         ctx.inst("C12.R3", "equals#Record", False, "no (Record, Record) arm in equals", None)
     # different kinds never equal / never ordered
     e, c = single_value(EQ, ("_",)), single_value(CMP, ("_",))
-    ctx.inst("C12.R3", "equals#other", e == ("lit", "false"), "wildcard arm of equals: %s" % (S.show(e) if e else None), None)
-    ctx.inst("C12.R3", "compare#other", c == ("path", "core::option::Option::None"), "wildcard arm of compare: %s" % (S.show(c) if c else None), None)
+    ctx.inst("C12.R3", "equals#other", S.verdict_opt(e, ("lit", "false")), "wildcard arm of equals: %s" % (S.show(e) if e else None), None)
+    ctx.inst("C12.R3", "compare#other", S.verdict_opt(c, ("path", "core::option::Option::None")), "wildcard arm of compare: %s" % (S.show(c) if c else None), None)
     # pair coverage
     cmp_pairs = {k for k in CMP if k != ("_",)}
     eq_pairs = {k for k in EQ if k != ("_",)}
@@ -259,10 +259,10 @@ def scalar_primitives(ctx, rid, core):
     for kind in ("Number", "Bool"):
         key = ("tup", (kind,), (kind,))
         e, c = single_value(EQ, key), single_value(CMP, key)
-        ctx.inst(rid, "equals#%s" % kind, e == ("bin", "Eq", L, R), "equals: %s" % S.show(e) if e else "arm missing / not a single value", H.loc(EQ[key][1]["body"]) if key in EQ else None)
-        ctx.inst(rid, "compare#%s" % kind, c == ("call", "partial_cmp", L, R), "compare: %s (IEEE: -0 == 0, NaN unordered)" % S.show(c) if c else "arm missing / not a single value", H.loc(CMP[key][1]["body"]) if key in CMP else None)
+        ctx.inst(rid, "equals#%s" % kind, S.verdict_opt(e, ("bin", "Eq", L, R)), "equals: %s" % S.show(e) if e else "arm missing / not a single value", H.loc(EQ[key][1]["body"]) if key in EQ else None)
+        ctx.inst(rid, "compare#%s" % kind, S.verdict_opt(c, ("call", "partial_cmp", L, R)), "compare: %s (IEEE: -0 == 0, NaN unordered)" % S.show(c) if c else "arm missing / not a single value", H.loc(CMP[key][1]["body"]) if key in CMP else None)
     key = ("tup", ("String",), ("String",))
     e, c = single_value(EQ, key), single_value(CMP, key)
     sl, sr = reified("as_string", L), reified("as_string", R)
-    ctx.inst(rid, "equals#String", e == ("bin", "Eq", sl, sr), "equals: %s" % (S.show(e) if e else None), H.loc(EQ[key][1]["body"]) if key in EQ else None)
-    ctx.inst(rid, "compare#String", c == ("call", "partial_cmp", sl, sr), "compare: %s" % (S.show(c) if c else None), H.loc(CMP[key][1]["body"]) if key in CMP else None)
+    ctx.inst(rid, "equals#String", S.verdict_opt(e, ("bin", "Eq", sl, sr)), "equals: %s" % (S.show(e) if e else None), H.loc(EQ[key][1]["body"]) if key in EQ else None)
+    ctx.inst(rid, "compare#String", S.verdict_opt(c, ("call", "partial_cmp", sl, sr)), "compare: %s" % (S.show(c) if c else None), H.loc(CMP[key][1]["body"]) if key in CMP else None)
